@@ -44,14 +44,15 @@ def incWeak (s : State) (o : Nat) : State :=
   | some ob => if ob.weak = 0 then s.fail .abort else s.setObj o { ob with weak := ob.weak + 1 }
   | none => s.fail (.uaf o)
 
-/-- `dec_weak(); if weak() == 0 { deallocate }` (rc.rs:1698-1708, drop.rs:206-213 &c.) -/
-def decWeakFree (s : State) (o : Nat) : State :=
+/-- `dec_weak(); if weak() == 0 { deallocate }` (rc.rs:1698-1708, drop.rs:206-213 &c.);
+`imp` says that the reference being released is the implicit one (ghost bookkeeping only) -/
+def decWeakFree (s : State) (o : Nat) (imp : Bool := false) : State :=
   match s.cell o with
   | some ob =>
     match ob.weak with
     | 0 => s.fail (.underflow o)
-    | 1 => (s.setObj o { ob with weak := 0, freed := true }).emit (.freed o)
-    | w + 2 => s.setObj o { ob with weak := w + 1 }
+    | 1 => (s.setObj o { ob with weak := 0, freed := true, implicit := ob.implicit && !imp }).emit (.freed o)
+    | w + 2 => s.setObj o { ob with weak := w + 1, implicit := ob.implicit && !imp }
   | none => s.fail (.uaf o)
 
 /-- `adopt_unchecked(this, other)`, adopt.rs:136-166 -/
@@ -81,7 +82,7 @@ def beginSingle (s : State) (o : Nat) : State :=
   match s.cell o with
   | some ob =>
     match ob.strong with
-    | .uninit => s.decWeakFree o
+    | .uninit => s.decWeakFree o true
     | .cnt _ =>
       match ob.value with
       | some v => (s.setObj o { ob with strong := .uninit, value := none }).push [.dropVal v, .finishSingle o]
@@ -93,7 +94,7 @@ def finishSingle (s : State) (o : Nat) : State :=
   match s.cell o with
   | some ob =>
     match ob.links with
-    | some _ => (s.setObj o { ob with links := none }).decWeakFree o
+    | some _ => (s.setObj o { ob with links := none }).decWeakFree o true
     | none => s.fail (.movedLinks o)
   | none => s.fail (.uaf o)
 
@@ -127,7 +128,7 @@ def phase2One (acc : State × List Val) (k : Nat) : State × List Val :=
 /-- phase 3 for one key (drop.rs:316-338) -/
 def phase3One (s : State) (k : Nat) : State :=
   match s.cell k with
-  | some ob => if ob.strong.isDead then s.decWeakFree k else s
+  | some ob => if ob.strong.isDead then s.decWeakFree k true else s
   | none => s.fail (.uaf k)
 
 end State
@@ -227,7 +228,7 @@ def cloneHandles (s : State) (v : Val) : State :=
 def giveUp (s : State) (o : Nat) : State :=
   match (s.purgePeers o).cell o with
   | some ob =>
-    ((s.purgePeers o).setObj o { ob with strong := .cnt 0, value := none, links := none }).decWeakFree o
+    ((s.purgePeers o).setObj o { ob with strong := .cnt 0, value := none, links := none }).decWeakFree o true
   | none => (s.purgePeers o).fail (.uaf o)
 
 end State
